@@ -168,8 +168,13 @@ func ParseUid(s string) Uid {
 // ParseUid32 parses base32-encoded string into Uid.
 func ParseUid32(s string) Uid {
 	var uid Uid
-	if data, err := base32.StdEncoding.WithPadding(base32.NoPadding).DecodeString(s); err == nil {
+	// String32 produces lowercase text while the standard base32 alphabet is uppercase.
+	if data, err := base32.StdEncoding.WithPadding(base32.NoPadding).DecodeString(strings.ToUpper(s)); err == nil && len(data) == 8 {
 		uid.UnmarshalBinary(data)
+		if uid.String32() != strings.ToLower(s) {
+			// Non-canonical text (stray trailing bits).
+			uid = ZeroUid
+		}
 	}
 	return uid
 }
